@@ -9,6 +9,7 @@ import QV.Driver.Names
 import QV.Driver.FormTree
 import QV.Driver.Xml
 import QV.Driver.ClassGraph
+import QV.Driver.QmlDir
 
 open QV
 
@@ -41,6 +42,9 @@ def dispatch (req : Sexp) : Sexp :=
   | .list (.atom "f10-cg" :: args) => Driver.ClassGraph.handleModel "f10-cg" args
   | .list (.atom "cg-repaired" :: args) => Driver.ClassGraph.handleModel "cg-repaired" args
   | .list (.atom "spec-cg" :: args) => Driver.ClassGraph.handleSpec "spec-cg" args
+  | .list (.atom "c18" :: args) => Driver.QmlDir.handleModel args
+  | .list (.atom "spec-c18-dirs" :: args) => Driver.QmlDir.handleSpec args
+  | .list (.atom "c18-cliout" :: args) => Driver.QmlDir.handleCli args
   | _ => .list [.atom "bad-request"]
 
 partial def loop (h : IO.FS.Stream) (out : IO.FS.Stream) : IO Unit := do
